@@ -146,12 +146,22 @@ def r18_6(ctx):
     # configuration of method objects: constructor arguments and solver settings
     for cname in P.subclasses("DirectMethod"):
         init = P.resolve(cname, "__init__")
+        # configuration = what the user chose: attributes the constructors derive from their arguments, and what the user-facing
+        # setters of the method object (Ocp.solver -> method.solver, Ocp.callback -> method.callback) record.  Attributes a constructor
+        # merely initialises to a constant are state, whether clean() resets them or not.
         cfg = set()
         c = cname
         for k in P.mro(cname):
             i = k.methods.get("__init__")
             if i is not None:
-                cfg |= {w.attr for w in writes_in(i.node) if w.kind == "assign"}
+                prm = set(i.params[1:]) | ({i.kwarg} if i.kwarg else set())
+                for w in writes_in(i.node):
+                    if w.kind == "assign" and isinstance(w.node, ast.Assign) and any(isinstance(x, ast.Name) and x.id in prm for x in ast.walk(w.node.value)):
+                        cfg.add(w.attr)
+            for setter in ("solver", "callback"):
+                g = k.methods.get(setter)
+                if g is not None:
+                    cfg |= {w.attr for w in writes_in(g.node)}
         cleaned = set()
         work = [P.method(cname, "clean")]
         seen = set()
